@@ -192,7 +192,7 @@ class Prover:
             us = [self.ub(v, facts, d + 1) for v in _arms(t)]
             if us and all(u is not None for u in us):
                 upd(max(us))
-        if op == "call" and t.args[0].endswith("ParseAt::size_for"):
+        if op == "call" and t.args[0].endswith(("ParseAt::size_for", "ParseAt>::size_for")):
             upd(self.an.prog.size_for_upper_bound(t))
         if op in ("bin", "cast") and self.unsigned(t) and d == 0:
             bv = self.bits(t)
@@ -271,7 +271,7 @@ class Prover:
                     upd(la + lbb if o.startswith("Add") else la * lbb)
         elif op == "call":
             f = t.args[0]
-            if f.endswith("ParseAt::size_for"):
+            if f.endswith(("ParseAt::size_for", "ParseAt>::size_for")):
                 upd(self.an.prog.size_for_lower_bound(t))
         return best if best is not None else -(1 << 127)
 
@@ -505,8 +505,11 @@ class Prover:
                 x = x.args[0]
             if x.op == "payload" and x.args[1] == "Ok":
                 c_ = self.an.call_site_of(x)
-                if c_ is not None and c_.callee_qual == "elf_stream::CachingReader::read_bytes" and len(c_.args) == 3:
-                    return self.arith(Term("bin", "Sub", c_.args[2], c_.args[1], "usize"), facts)
+                if c_ is not None and c_.callee_qual == "elf_stream::CachingReader::read_bytes":
+                    from .prov import read_bytes_bounds
+                    bnd = read_bytes_bounds(c_.args)
+                    if bnd is not None:
+                        return self.arith(Term("bin", "Sub", bnd[1], bnd[0], "usize"), facts)
         if t.op == "bin" and t.args[0] == "Div":
             # (x (*) y)!Some / y = x   (the product did not wrap; y != 0 or the division itself traps)
             x, y = self.arith(t.args[1], facts), t.args[2]
